@@ -302,6 +302,11 @@ def write_tree(files, root, noise=None, rng=None):
                     s = s.replace(" ", rng.choice(["  ", "\t", "   "]))
                 if not s.strip().startswith("#") and rng.random() < 0.3:
                     s = s + rng.choice([" ; trailing comment", "   ", " ;"])
+                if s.strip().split(" ")[0] in ("#ifdef", "#ifndef", "#define") and rng.random() < 0.5:
+                    # several blanks between the keyword and the macro name
+                    kw_, rest_ = s.split(" ", 1) if not s.startswith((" ", "\t")) else (None, None)
+                    if kw_:
+                        s = kw_ + rng.choice(["  ", "    "]) + rest_
                 out.append(s)
             lines = out
         with open(fp, "w") as fh:
